@@ -60,6 +60,7 @@ type ccall struct {
 	reply *ref9p.Msg // without tag
 	want  Result
 	rlen  int
+	dead  bool // class cmalf: its reply is the malformed one or lies behind it
 }
 
 type clayout struct {
@@ -69,6 +70,9 @@ type clayout struct {
 	total  int
 	bounds []int
 	starts []int // offset of each round's replies in the total reply stream
+	// class cmalf: round and position (in the round's reply order) of the malformed reply, else -1
+	malfRound, malfPos int
+	malfWhy            string
 }
 
 func callFid(id int) uint32 { return uint32(1000 + id) }
@@ -83,10 +87,10 @@ func statBase(dotu bool) int {
 }
 
 func clientLayout(c *Case) (*clayout, error) {
-	if c.Msize < 64 || len(c.Rounds) == 0 {
+	if c.Msize < 64 || len(c.Rounds) == 0 || (c.CMalf != nil) != (c.Side == "cmalf") {
 		return nil, fmt.Errorf("harness: bad client case")
 	}
-	l := &clayout{}
+	l := &clayout{malfRound: -1, malfPos: -1}
 	id := 0
 	for ri, round := range c.Rounds {
 		if len(round) == 0 || len(round) > 256 {
@@ -172,12 +176,43 @@ func clientLayout(c *Case) (*clayout, error) {
 		l.rounds = append(l.rounds, cs)
 		l.order = append(l.order, order)
 		l.starts = append(l.starts, l.total)
-		for _, o := range order {
-			l.total += cs[o].rlen
+		if c.CMalf != nil && ri == len(c.Rounds)-1 && (c.CMalf.Pos < 0 || c.CMalf.Pos >= len(order)) {
+			return nil, fmt.Errorf("harness: malformed reply at position %d of a round of %d", c.CMalf.Pos, len(order))
+		}
+		for pos, o := range order {
+			n := cs[o].rlen
+			if c.CMalf != nil && ri == len(c.Rounds)-1 && pos >= c.CMalf.Pos {
+				cs[o].dead = true
+				if pos == c.CMalf.Pos {
+					bad, what, err := malformedReply(c, cs[o], 0)
+					if err != nil {
+						return nil, err
+					}
+					_, _, derr := ref9p.Decode(bad, c.Dotu)
+					n = len(bad)
+					l.malfRound, l.malfPos = ri, pos
+					l.malfWhy = fmt.Sprintf("reply %d of the stream (%s to call %d, %d bytes) is malformed: %s (strict decoding: %v)", len(l.bounds), ref9p.TypeName(bad[4]), cs[o].id, n, what, derr)
+				}
+			}
+			l.total += n
 			l.bounds = append(l.bounds, l.total)
 		}
 	}
 	return l, nil
+}
+
+// malformedReply is the malformed frame made from the call's well-formed reply.
+func malformedReply(c *Case, cc *ccall, tag uint16) ([]byte, string, error) {
+	m := *cc.reply
+	m.Tag = tag
+	bad, what, err := mutate(c.CMalf.Mut, c.CMalf.At, c.CMalf.By, ref9p.Encode(&m, c.Dotu), c.Dotu)
+	if err != nil {
+		return nil, "", err
+	}
+	if _, _, derr := ref9p.Decode(bad, c.Dotu); derr == nil || len(bad) > int(c.Msize) {
+		return nil, "", fmt.Errorf("harness: the mutated reply of %d bytes decodes strictly or exceeds msize %d", len(bad), c.Msize)
+	}
+	return bad, what, nil
 }
 
 // checkRequest verifies that the request the client sent is the call's own.
@@ -336,10 +371,17 @@ func runClient(c *Case, l *clayout, cuts []int) ([]Result, error) {
 		}
 		// ---- the round's part of the reply stream, cut by the plan
 		var stream []byte
-		for _, o := range l.order[ri] {
+		for pos, o := range l.order[ri] {
 			m := *round[o].reply
 			m.Tag = tags[round[o]]
-			stream = append(stream, ref9p.Encode(&m, c.Dotu)...)
+			enc := ref9p.Encode(&m, c.Dotu)
+			if ri == l.malfRound && pos == l.malfPos {
+				var err error
+				if enc, _, err = malformedReply(c, round[o], m.Tag); err != nil {
+					return nil, err
+				}
+			}
+			stream = append(stream, enc...)
 		}
 		var rc []int
 		for _, x := range cuts {
@@ -347,7 +389,8 @@ func runClient(c *Case, l *clayout, cuts []int) ([]Result, error) {
 				rc = append(rc, x-l.starts[ri])
 			}
 		}
-		if err := p.Write(stream, rc); err != nil {
+		if err := p.Write(stream, rc); err != nil && ri != l.malfRound {
+			// (in the round with the malformed reply the client is expected to hang up at it)
 			return nil, fmt.Errorf("round %d: the client closed the connection before the replies were written: %v", ri, err)
 		}
 		// ---- wait for the callers
@@ -362,17 +405,26 @@ func runClient(c *Case, l *clayout, cuts []int) ([]Result, error) {
 			}
 			out, _ := clnt.VerifCounts()
 			state := atomic.LoadInt64(&returned)<<20 | int64(out)
-			if state == last && p.End.Unread() == 0 {
+			unread := p.End.Unread()
+			if state == last && (unread == 0 || ri == l.malfRound) {
 				idle++
 			} else {
 				idle = 0
 			}
 			last = state
-			if idle >= idlePolls && !go9pQuiescent("go9p.(*Clnt).recv") {
-				idle = 0 // something is still runnable inside the library: keep waiting
+			if idle >= idlePolls {
+				// parked: nothing runnable inside the library, its receive loop waits for bytes and none are under way;
+				// gone (round with the malformed reply only): the receive loop has ended, what is unread stays unread
+				st := go9pState("go9p.(*Clnt).recv")
+				if !(st == "parked" && unread == 0) && !(st == "gone" && ri == l.malfRound) {
+					idle = 0 // something is still runnable inside the library: keep waiting
+				}
+			}
+			if idle >= idlePolls && int(atomic.LoadInt64(&returned)) >= round[len(round)-1].id+1 {
+				idle = 0 // every call has returned: the goroutine that says so is on its way
 			}
 			if idle >= idlePolls {
-				return nil, fmt.Errorf("round %d: the client has read the whole reply stream and is idle, but %d calls never returned (%d requests still outstanding)", ri, round[len(round)-1].id+1-int(atomic.LoadInt64(&returned)), out)
+				return nil, fmt.Errorf("round %d: the client has read the whole reply stream (or has stopped reading) and is idle, but %d calls never returned (%d requests still outstanding)", ri, round[len(round)-1].id+1-int(atomic.LoadInt64(&returned)), out)
 			}
 			if time.Since(start) > hangAfter {
 				return nil, hangErr(fmt.Sprintf("round %d: calls did not return", ri))
@@ -383,9 +435,18 @@ func runClient(c *Case, l *clayout, cuts []int) ([]Result, error) {
 			mu.Lock()
 			got := results[cc.id]
 			mu.Unlock()
+			if cc.dead {
+				if !got.Returned || !got.IsErr {
+					return nil, fmt.Errorf("call %d (round %d, %s fid %d) returned %v although its reply is, or lies behind, the malformed reply: %s", cc.id, ri, cc.spec.Kind, cc.fid, got, l.malfWhy)
+				}
+				continue
+			}
 			if !sameResult(got, cc.want) {
 				return nil, fmt.Errorf("call %d (round %d, %s fid %d) returned %v, the reply to its own request says %v", cc.id, ri, cc.spec.Kind, cc.fid, got, cc.want)
 			}
+		}
+		if ri == l.malfRound && !p.End.PeerClosed() {
+			return nil, fmt.Errorf("the client did not drop the connection although %s", l.malfWhy)
 		}
 	}
 	// data returned by earlier reads must not have been disturbed by later replies
